@@ -60,9 +60,13 @@ func (h *TwoPartyHandler) Listen() <-chan *Message {
 }
 
 func (h *TwoPartyHandler) Stop() {
+	h.mtx.Lock()
+	defer h.mtx.Unlock()
+	// nothing to do if the protocol already finished or aborted (the out channel is already closed)
 	if h.err != nil || h.result != nil {
-		h.abort(errors.New("aborted by user"))
+		return
 	}
+	h.abort(errors.New("aborted by user"))
 }
 
 func (h *TwoPartyHandler) String() string {
